@@ -82,3 +82,11 @@ Proof. vm_compute. reflexivity. Qed.
 (* opposite moves: the writer form *)
 Example writer_lock_order_deadlock : deadlocked (run [0; 0; 1; 1; 0; 1] (start [[WL 0; WL 1]; [WL 1; WL 0]])) = true.
 Proof. vm_compute. reflexivity. Qed.
+(* the writer preference itself (vh lockorder pref): a reader holds k, a writer has called Lock(k): a second reader
+   cannot enter; once the first reader commits, everybody finishes *)
+Definition pref_progs : list (list act) := [[RL 0]; [WL 0]; [RL 0]].
+Example writer_preference_blocks_reader :
+  enabled 2 (run [0; 1] (start pref_progs)) = false /\ enabled 2 (run [0] (start pref_progs)) = true.
+Proof. vm_compute. split; reflexivity. Qed.
+Example writer_preference_all_finish : all_finished (run [0; 1; 2; 0; 1; 1; 2; 2] (start pref_progs)) = true.
+Proof. vm_compute. reflexivity. Qed.
